@@ -802,7 +802,8 @@ class EventSource(object):
             elif field == u'retry':  #
                 try:
                     value = int(value)
-                except ValueError as ex:
+                    float(value)  # too large for a duration in milliseconds raises OverflowError
+                except (ValueError, OverflowError) as ex:
                     pass  # ignore
                 else:
                     self.retry = value
